@@ -24,6 +24,8 @@ type PropSpec struct {
 	Undecided []string `json:"undecided_clauses"`
 	Assume    []string `json:"assumptions"`
 	Syntactic []string `json:"syntactic"` // named syntactic frame checks (C14)
+	Exclude   []string `json:"exclude"`   // obligations whose name contains one of these are not part of this property
+	NotYet    []string `json:"functions_not_yet_under_contract"`
 }
 
 type KnownFinding struct {
@@ -141,6 +143,15 @@ func (E *Engine) checkProperty(prop, tier string) int {
 			models = append(models, fr.Models...)
 			inlined = append(inlined, fr.Inlined...)
 			for n, ob := range fr.Obs {
+				skip := false
+				for _, e := range ps.Exclude {
+					if strings.Contains(n, e) {
+						skip = true
+					}
+				}
+				if skip {
+					continue
+				}
 				all[n] = ob
 				if !ob.Proved && len(ob.Fails) > 0 {
 					scripts[n] = fr.Scripts[ob.Fails[0].Path]
@@ -312,6 +323,7 @@ func (E *Engine) checkProperty(prop, tier string) int {
 			"assumed_contracts": trusted, "library_models_used": modelDocs,
 			"inlined_uncontracted_callees": inlined,
 			"undecided_clauses": ps.Undecided,
+			"functions_not_yet_under_contract": ps.NotYet,
 			"tool_limits": toolLimits,
 			"obligation_results": records,
 			"samples": samples,
@@ -367,6 +379,15 @@ func (E *Engine) writeBaseline() int {
 				continue
 			}
 			for n, ob := range fr.Obs {
+				skip := false
+				for _, e := range ps.Exclude {
+					if strings.Contains(n, e) {
+						skip = true
+					}
+				}
+				if skip {
+					continue
+				}
 				if ob.Proved {
 					names = append(names, n)
 				} else {
